@@ -197,3 +197,18 @@ Definition into_asn (field_ty : list N) (a : attr) : option (option tag * aty * 
   | PType t => Some (a_tag a, t, if is_integer (no_optional t) then a_consts a else [])
   | _ => None
   end.
+
+(* rust.rs Context::to_rust_constants, as to_rust_keep_names applies it to the type into_asn produced: [ics] are the
+   constants into_asn put into the Integer it reached through optional(..) (the third component of [into_asn]); a
+   BitString never receives any there.  The Optional arm exists since /repo e572296; Default(..) still answers none. *)
+Fixpoint to_rust_constants (t : aty) (ics : list (list N * Z)) : list (list N * Z) :=
+  match t with
+  | AInt _ _ _ => ics
+  | AOpt t' => to_rust_constants t' ics
+  | _ => []
+  end.
+(* asn_fields_to_rust_fields: `ctxt.to_rust_constants(&field.role.r#type)` *)
+Definition field_rust_constants (t : aty) (ics : list (list N * Z)) : list (list N * Z) := to_rust_constants t ics.
+(* definition_to_rust for a transparent definition: only the arm `me @ AsnType::Integer(_)` asks for constants *)
+Definition tuple_rust_constants (t : aty) (ics : list (list N * Z)) : list (list N * Z) :=
+  match t with AInt _ _ _ => ics | _ => [] end.
